@@ -719,25 +719,91 @@ fn nth_token(dm: &result::DeserializedMetadataAndRawRows) -> String {
 
 fn consume<T>(it: impl Iterator<Item = Result<T, scylla_cql::deserialize::DeserializationError>>, cap: usize) {
     let mut n = 0usize;
+    // typed iterators are polled PAST their errors as well (a consumer may `filter_map(Result::ok)`): at most 8 errors
+    let mut errs = 0usize;
     for r in it {
         n += 1;
-        if r.is_err() || n >= cap {
+        if r.is_err() {
+            errs += 1;
+        }
+        if errs >= 8 || n >= cap {
             break;
         }
     }
+}
+
+// derive-generated row / UDT targets (scylla-macros: `expect("Typecheck should have prevented…")`, `unreachable!`
+// behind the generated type check) under hostile bytes
+#[derive(scylla::DeserializeValue, Debug)]
+struct C08UdtByName {
+    x: Option<i32>,
+    y: Option<String>,
+}
+#[derive(scylla::DeserializeValue, Debug)]
+#[scylla(flavor = "enforce_order", skip_name_checks)]
+struct C08UdtInOrder {
+    x: Option<i32>,
+    y: Option<String>,
+}
+#[derive(scylla::DeserializeValue, Debug)]
+#[scylla(forbid_excess_udt_fields)]
+struct C08UdtLax {
+    y: Option<String>,
+    #[scylla(allow_missing)]
+    #[scylla(default_when_null)]
+    x: i32,
+}
+#[derive(scylla::DeserializeRow, Debug)]
+struct C08RowByName {
+    a: Option<i32>,
+    b: Option<String>,
+}
+#[derive(scylla::DeserializeRow, Debug)]
+#[scylla(flavor = "enforce_order", skip_name_checks)]
+struct C08RowInOrder {
+    a: Option<i32>,
+    b: Option<String>,
+}
+#[derive(scylla::DeserializeRow, Debug)]
+struct C08RowWithUdt {
+    a: Option<i32>,
+    u: Option<C08UdtByName>,
+}
+#[derive(scylla::DeserializeRow, Debug)]
+#[scylla(flavor = "enforce_order", skip_name_checks)]
+struct C08RowWithUdts {
+    a: Option<i32>,
+    u: Option<C08UdtInOrder>,
+}
+#[derive(scylla::DeserializeRow, Debug)]
+#[scylla(flavor = "enforce_order", skip_name_checks)]
+struct C08RowLaxUdt {
+    u: Option<C08UdtLax>,
 }
 
 fn typed_decoders(dm: &result::DeserializedMetadataAndRawRows, cap: usize) {
     if let Ok(it) = dm.rows_iter::<Row>() {
         consume(it, cap);
     }
+    // developer aid: VERIF_C08_STAT=1 prints to stderr which typed targets passed their type check
+    let stat = std::env::var_os("VERIF_C08_STAT").is_some();
     macro_rules! try_t {
         ($t:ty) => {
             if let Ok(it) = dm.rows_iter::<$t>() {
+                if stat {
+                    eprintln!("typed-target {}", stringify!($t));
+                }
                 consume(it, cap);
             }
         };
     }
+    try_t!(C08RowByName);
+    try_t!(C08RowInOrder);
+    try_t!(C08RowWithUdt);
+    try_t!(C08RowWithUdts);
+    try_t!(C08RowLaxUdt);
+    try_t!((Option<C08UdtByName>,));
+    try_t!((Option<Vec<Option<C08UdtInOrder>>>,));
     try_t!((Option<i32>,));
     try_t!((Option<i64>,));
     try_t!((Option<String>,));
@@ -927,6 +993,77 @@ fn cached_metadata() -> Arc<ResultMetadata<'static>> {
 }
 
 /// Runs the real pipeline; returns (canonical line, oracle messages raised inside).
+/// Model-independent oracle of `read_response_frame` (`bs` = everything handed to the reader, `left` = what the
+/// reader still holds afterwards): with the header and at least `length` body bytes present it must return exactly
+/// those `length` bytes and leave the rest untouched; with fewer it must report ConnectionClosed naming the number of
+/// missing bytes and the announced length. Returns the complaints.
+fn frame_read_oracle(
+    bs: &[u8],
+    left: usize,
+    r: &Result<(frame::FrameParams, frame::response::ResponseOpcode, Bytes), FrameHeaderParseError>,
+) -> Vec<String> {
+    let mut out = vec![];
+    if bs.len() < 9 {
+        if r.is_ok() {
+            out.push(format!("frame read: Ok from {} bytes (no complete header)", bs.len()));
+        }
+        return out;
+    }
+    let length = u32::from_be_bytes([bs[5], bs[6], bs[7], bs[8]]) as usize;
+    let present = bs.len() - 9;
+    match r {
+        Ok((p, op, body)) => {
+            if present < length {
+                out.push(format!("frame read: Ok although only {} of the {} announced body bytes were present", present, length));
+            } else {
+                if body.len() != length {
+                    out.push(format!("frame read: body of {} bytes returned, header announced {}", body.len(), length));
+                } else if body[..] != bs[9..9 + length] {
+                    out.push("frame read: returned body differs from the bytes sent".to_owned());
+                }
+                if left != present.saturating_sub(length) && body.len() == length {
+                    out.push(format!("frame read: {} bytes left in the reader, expected {}", left, present - length));
+                }
+                if left + body.len() != present {
+                    out.push(format!("frame read: consumed {} body bytes but returned {}", present - left, body.len()));
+                }
+            }
+            if bs[0] & 0x80 == 0 || bs[0] & 0x7f != 4 || ![0x00u8, 0x02, 0x03, 0x06, 0x08, 0x0C, 0x0E, 0x10].contains(&bs[4]) {
+                out.push(format!("frame read: Ok for the header {} (not a v4 response with a response opcode)", hex(&bs[..9])));
+            }
+            if p.version != bs[0] || p.flags != bs[1] || p.stream != i16::from_be_bytes([bs[2], bs[3]]) || *op as u8 != bs[4] {
+                out.push("frame read: header fields differ from the bytes sent".to_owned());
+            }
+        }
+        Err(FrameHeaderParseError::ConnectionClosed(missing, announced)) => {
+            if present >= length {
+                out.push(format!("frame read: ConnectionClosed although all {} announced body bytes were present ({} handed over)", length, present));
+            } else if *missing != length - present || *announced != length {
+                out.push(format!("frame read: ConnectionClosed({}, {}) but {} of {} bytes were missing", missing, announced, length - present, length));
+            }
+            if left != 0 && present < length {
+                out.push(format!("frame read: EOF reported with {} bytes unread", left));
+            }
+        }
+        Err(e) => {
+            // header-level refusals must be justified by the header bytes
+            let ok = match e {
+                FrameHeaderParseError::FrameFromClient => bs[0] & 0x80 == 0,
+                FrameHeaderParseError::VersionNotSupported(v) => bs[0] & 0x80 != 0 && bs[0] & 0x7f != 4 && *v == bs[0] & 0x7f,
+                // CQL v4 §2.4: the response opcodes
+                FrameHeaderParseError::UnknownResponseOpcode(_) => {
+                    bs[0] & 0x80 != 0 && bs[0] & 0x7f == 4 && ![0x00u8, 0x02, 0x03, 0x06, 0x08, 0x0C, 0x0E, 0x10].contains(&bs[4])
+                }
+                _ => false,
+            };
+            if !ok {
+                out.push(format!("frame read: error `{}` not justified by the header {}", hdr_err_kind(e), hex(&bs[..9])));
+            }
+        }
+    }
+    out
+}
+
 fn pipeline(c: &FrameCase) -> (String, Vec<String>) {
     ORACLE.with(|o| o.borrow_mut().clear());
     let line = pipeline_inner(c);
@@ -937,7 +1074,11 @@ fn pipeline_inner(c: &FrameCase) -> String {
     let bs = &c.bytes;
     let rt = tokio::runtime::Builder::new_current_thread().build().unwrap();
     let mut reader: &[u8] = &bs[..];
-    let (params, opcode, body) = match rt.block_on(frame::read_response_frame(&mut reader)) {
+    let read = rt.block_on(frame::read_response_frame(&mut reader));
+    for m in frame_read_oracle(bs, reader.len(), &read) {
+        ORACLE.with(|o| o.borrow_mut().push(m));
+    }
+    let (params, opcode, body) = match read {
         Ok(x) => x,
         Err(e) => {
             return format!("err hdr.{}", hdr_err_kind(&e));
@@ -1200,15 +1341,17 @@ pub fn run(case: &str, ctx: &mut Ctx) -> String {
                 let rt = tokio::runtime::Builder::new_current_thread().build().unwrap();
                 let mut reader: &[u8] = &bs[..];
                 let before = c08alloc::peek().1;
-                let r = match rt.block_on(frame::read_response_frame(&mut reader)) {
-                    Ok((p, op, body)) => format!("hdr ok {},{},{} len={}", p.flags, p.stream, op as u8, body.len()),
+                let read = rt.block_on(frame::read_response_frame(&mut reader));
+                let orc = frame_read_oracle(&bs, reader.len(), &read);
+                let r = match read {
+                    Ok((p, op, body)) => format!("hdr ok {},{},{} len={} left={}", p.flags, p.stream, op as u8, body.len(), reader.len()),
                     Err(e) => format!("hdr err {}", hdr_err_kind(&e)),
                 };
                 // the largest single allocation request made while reading (the body buffer's capacity), compared
                 // with the model when it is large enough to stand out from the runtime's own small allocations
                 let maxreq = c08alloc::peek().1;
                 let cap = if maxreq >= 65536 && maxreq > before { maxreq.to_string() } else { "small".to_owned() };
-                (format!("{} cap={}", r, cap), vec![])
+                (format!("{} cap={}", r, cap), orc)
             });
             finish(o, n, "-", ctx)
         }
